@@ -17,6 +17,7 @@
 #include <sys/time.h>
 #include <time.h>
 
+static long long vh_time_budget_ns = 0, vh_time_deadline_ns = 0;
 static int ts_vclock_on = 0;
 static long long ts_vclock_usec = 1000000000LL * 1000000LL;
 static int ts_sched_on = 0;
@@ -90,10 +91,17 @@ static void ts_abort(const char *why, int code) {
 static sexp_sint_t ts_on_instr(sexp ctx, unsigned char *ip, sexp_sint_t fuel) {
   int others, timers;
   sexp front, paused;
+  /* wall-clock budget per call (checked every 256 instructions): a few instructions on huge operands can be very slow */
+  if (vh_budget && vh_time_budget_ns && (vh_instrs & 255) == 255) {
+    struct timespec ts;
+    clock_gettime(CLOCK_MONOTONIC, &ts);
+    if ((long long)ts.tv_sec * 1000000000LL + ts.tv_nsec > vh_time_deadline_ns) vh_instrs = vh_budget;
+  }
   /* instruction budget (per top-level form), delivered through the interrupt path */
   if (vh_budget && ++vh_instrs > vh_budget) {
     vh_instrs = 0;
     vh_budget_hits++;
+    if (vh_time_budget_ns) vh_budget = 0;   /* per-call budgets fire once: the handler runs unbudgeted */
     if (vh_budget_hits > 200000) ts_abort("BUDGET-ABORT", 9);
     sexp_context_interruptp(ctx) = 1;
     return 1;
